@@ -413,7 +413,7 @@ def public(case):
     return {k: v for k, v in case.items() if not k.startswith("_")}
 
 
-def corpus_cases():
+def corpus_cases(histories=False):
     """regression inputs that always run first: the concrete inputs of the two defects found by
     this check (both repaired in /repo) and the seam / half-size corner cases"""
     from ..common import VERIF
@@ -424,9 +424,10 @@ def corpus_cases():
             rp = json.loads(f.read_text())
         except Exception:  # noqa: BLE001
             continue
-        if isinstance(rp.get("case"), dict):
+        if isinstance(rp.get("case"), dict) and (rp.get("kind") == "history") == histories:
             c = dict(rp["case"])
-            c["_corpus"] = f.name
+            if not histories:
+                c["_corpus"] = f.name
             out.append(c)
     return out
 
@@ -1341,10 +1342,22 @@ def check_entry_points(ctx: Ctx):
 
 
 # --------------------------------------------------------------------------- round 4: call histories on the same arrays
-def gen_history(r):
-    """one pair of images and a sequence of 3-6 registrations that all RE-USE the same input objects (the two
+EDIT_HOW = ["copyto", "assign", "rows", "arith", "out"]
+
+
+def _far(a, b, M, N) -> bool:
+    """two applied shifts that no tolerance of the oracle can confuse (>= 1 pixel apart in the periodic cell)"""
+    return max(abs(circ(a[0] - b[0], M)), abs(circ(a[1] - b[1], N))) >= 1.0
+
+
+def gen_history(r, edits=False):
+    """one pair of images and a sequence of registrations that all RE-USE the same input objects (the two
     real arrays / their two spectra; the two tensors / their two spectra), in every fft_input /
-    return_shifted_image / fft_output combination, either image in the role of the second argument"""
+    return_shifted_image / fft_output combination, either image in the role of the second argument.
+    edits=True (round 6): between two calls the caller may OVERWRITE THE CONTENTS of an array it passed before,
+    in place (the object stays the same: a pre-allocated frame buffer that is refilled, a reference that is
+    updated): slot 0 (first image), slot 1 (second image) or both (a new image pair), real array and spectrum
+    alike; the following calls are judged on the NEW contents"""
     M, N = r.choice(SHAPES)
     est = r.choice(["numpy", "numpy", "torch"])
     kind = r.choice(["int", "int", "sub"])
@@ -1358,30 +1371,93 @@ def gen_history(r):
         if abs(circ(s[0], M)) < 1 and abs(circ(s[1], N)) < 1:
             s[0] += 2.0
     calls = []
-    for _ in range(r.randint(3, 6)):
-        c = {"up": r.choice(UPS), "swap": r.random() < 0.3}
+    p_fourier = 0.45 if edits else 0.65
+    for _ in range(r.randint(4, 8) if edits else r.randint(3, 6)):
+        c = {"up": r.choice(UPS), "swap": r.random() < (0.4 if edits else 0.3)}
         if est == "numpy":
-            c["fft_in"] = r.random() < 0.65
+            c["fft_in"] = r.random() < p_fourier
             c["rsi"] = r.random() < 0.65
             c["fft_out"] = c["rsi"] and r.random() < 0.5
         else:
-            c["mode"] = r.choice(["real", "fourier", "fourier"])
+            c["mode"] = r.choice(["real", "fourier", "fourier"] if not edits else ["real", "real", "fourier"])
         calls.append(c)
-    if est == "numpy":       # every history has the combination that hands the caller's spectra over and asks for the image
+    if est == "numpy" and not edits:   # every such history has the combination that hands the caller's spectra over and asks for the image
         calls[0].update({"fft_in": True, "rsi": True, "fft_out": r.random() < 0.5})
+    if edits:
+        cur = s
+        nedit = 0
+        for i in range(1, len(calls)):
+            if r.random() < 0.6 or (i == len(calls) - 1 and nedit == 0):
+                ek = r.choice(["int", "int", "sub", "zero"])
+                for _try in range(50):
+                    if ek == "zero":
+                        new = [0.0, 0.0]
+                    elif ek == "int":
+                        new = [float(r.randint(-M, 2 * M)), float(r.randint(-N, 2 * N))]
+                    else:
+                        den = r.choice([4, 8, 16])
+                        new = [r.randint(-M * den, M * den) / den, r.randint(-N * den, N * den) / den]
+                    if _far(new, cur, M, N) and (ek == "zero" or _far(new, [0.0, 0.0], M, N)):
+                        break
+                    if ek == "zero":
+                        ek = "int"     # the pair is identical already: overwrite with a translated copy instead
+                else:
+                    continue
+                e = {"slot": r.choice([0, 0, 1, 1, 2]), "how": r.choice(EDIT_HOW), "kind": ek, "shift": new}
+                if e["slot"] == 2:
+                    e["seed"] = r.randrange(1 << 30)
+                calls[i]["edit"] = e
+                cur = new
+                nedit += 1
     return {"est": est, "img": "bl", "seed": r.randrange(1 << 30), "M": M, "N": N, "shift": s, "kind": kind,
             "calls": calls}
 
 
+def _overwrite(target, new, how):
+    """the caller overwrites the CONTENTS of an array / tensor it owns, in place; the object stays the same"""
+    if isinstance(target, np.ndarray):
+        new = np.asarray(new).astype(target.dtype)
+        if how == "copyto":
+            np.copyto(target, new)
+        elif how == "assign":
+            target[...] = new
+        elif how == "rows":
+            for i in range(target.shape[0]):
+                target[i] = new[i]
+        elif how == "arith":                  # in-place arithmetic update (values are finite: 0 * x = 0)
+            target *= 0
+            target += new
+        else:
+            np.add(new, 0, out=target)
+    else:
+        import torch
+        new = torch.as_tensor(new).to(target.dtype)
+        if how == "copyto":
+            target.copy_(new)
+        elif how == "assign":
+            target[...] = new
+        elif how == "rows":
+            for i in range(target.shape[0]):
+                target[i] = new[i]
+        elif how == "arith":
+            target.mul_(0).add_(new)
+        else:
+            torch.add(new, 0, out=target)
+
+
 def history_case(hist):
     """runs the history on ONE set of input objects; every call is judged by the property oracle on its own
-    (returned shift = the applied translation, aligned image matches).  Returns [(key, msg, call index)]"""
+    (returned shift = the applied translation, aligned image matches), on the contents the caller's arrays are
+    SUPPOSED to have at that call (private copies; an in-place overwrite by the caller updates them).
+    Returns [(key, msg, call index)]"""
     from quantem.core.utils import imaging_utils as iu
     M, N = hist["M"], hist["N"]
     base = {"est": hist["est"], "img": hist["img"], "seed": hist["seed"], "M": M, "N": N, "shift": hist["shift"],
             "kind": hist["kind"], "up": 1}
     ref, im = build_pair(base)
-    pristine = (ref.copy(), im.copy())
+    pristine = [ref.copy(), im.copy()]
+    shift = list(hist["shift"])
+    kind = hist["kind"]
     if hist["est"] == "numpy":
         objs = {"real": (ref, im), "fourier": (np.fft.fft2(ref), np.fft.fft2(im))}
     else:
@@ -1389,12 +1465,33 @@ def history_case(hist):
         ta, tb = torch.tensor(ref), torch.tensor(im)
         objs = {"real": (ta, tb), "fourier": (torch.fft.fft2(ta), torch.fft.fft2(tb))}
     bad = []
+    nedits = 0
     for i, c in enumerate(hist["calls"]):
+        e = c.get("edit")
+        if e:
+            # the caller refills its buffers: slot 1 := the translate of slot 0 by the new shift, slot 0 := the
+            # translate of slot 1 by minus the new shift, both := a new image and its translate
+            shift, kind = list(e["shift"]), e["kind"]
+            if e["slot"] == 2:
+                pristine[0] = make_image(hist["img"], e["seed"], M, N)
+                pristine[1] = apply_shift(pristine[0], shift)
+                slots = (0, 1)
+            elif e["slot"] == 1:
+                pristine[1] = apply_shift(pristine[0], shift)
+                slots = (1,)
+            else:
+                pristine[0] = apply_shift(pristine[1], [-shift[0], -shift[1]])
+                slots = (0,)
+            for k in slots:
+                _overwrite(objs["real"][k], pristine[k], e["how"])
+                _overwrite(objs["fourier"][k], np.fft.fft2(pristine[k]), e["how"])
+            nedits += 1
         case = dict(base)
-        case.update({k: v for k, v in c.items() if k != "swap"})
-        first, second = pristine if not c["swap"] else (pristine[1], pristine[0])
+        case.update({k: v for k, v in c.items() if k not in ("swap", "edit")})
+        case["shift"], case["kind"] = list(shift), kind
+        first, second = (pristine[0], pristine[1]) if not c["swap"] else (pristine[1], pristine[0])
         if c["swap"]:
-            case["shift"] = [-hist["shift"][0], -hist["shift"][1]]
+            case["shift"] = [-shift[0], -shift[1]]
         img = None
         try:
             if hist["est"] == "numpy":
@@ -1418,46 +1515,88 @@ def history_case(hist):
                 else:
                     out = iu.align_images_fourier_torch(a, b, c["up"])
                     res = [circ(float(out[0]), M), circ(float(out[1]), N)]
-        except Exception as e:  # noqa: BLE001
-            case["_raised"] = "%s: %s" % (type(e).__name__, str(e)[:200])
+        except Exception as e_:  # noqa: BLE001
+            case["_raised"] = "%s: %s" % (type(e_).__name__, str(e_)[:200])
             res = [float("nan"), float("nan")]
         for k, m_ in oracle(case, first, second, res, img, None):
-            bad.append(("history-" + k, "call %d of %d on the same input %s (%s): %s" % (
-                i + 1, len(hist["calls"]), "arrays" if hist["est"] == "numpy" else "tensors",
-                ", ".join("%s=%r" % kv for kv in sorted(c.items())), m_), i))
+            what = "arrays" if hist["est"] == "numpy" else "tensors"
+            where = ("call %d of %d on the same input %s" % (i + 1, len(hist["calls"]), what)) if not nedits else (
+                "call %d of %d on the same input %s, whose contents the caller has overwritten in place %d time(s) since "
+                "the first call (last: %s)" % (i + 1, len(hist["calls"]), what, nedits, _last_edit(hist["calls"][:i + 1])))
+            bad.append((("history-" if not nedits else "history-after-overwrite-") + k, "%s (%s): %s" % (
+                where, ", ".join("%s=%r" % kv for kv in sorted(c.items()) if kv[0] != "edit"), m_), i))
         if bad:
             break           # later calls of a broken history add nothing
     return bad
 
 
+def _last_edit(calls):
+    for j in range(len(calls) - 1, -1, -1):
+        e = calls[j].get("edit")
+        if e:
+            return "before call %d, %s, %s, new applied shift %s" % (
+                j + 1, {0: "first image", 1: "second image", 2: "both images (new image pair)"}[e["slot"]], e["how"], e["shift"])
+    return "none"
+
+
 def check_histories(ctx: Ctx):
     """'returns the applied translation' holds for EVERY call: also for the 2nd .. n-th registration that is handed
     the very same arrays / spectra / tensors as an earlier one (a caller that registers one spectrum against several
-    references, at several factors, with and without the aligned image)"""
+    references, at several factors, with and without the aligned image), and (round 6) for a call on an array whose
+    CONTENTS the caller has overwritten in place since it was passed before (pre-allocated frame buffers refilled
+    for the next pair, a reference that is updated): the expected shift is that of the new contents"""
     r = ctx.rng
-    n = ctx.budget(36, 900)
-    nbad = ncalls = 0
-    mid = None
-    for j in range(n):
-        hist = gen_history(r)
+    n_plain = ctx.budget(36, 900)
+    n_edit = ctx.budget(60, 1500)
+    nbad = ncalls = nedits = 0
+    mid = []
+    fixed = corpus_cases(histories=True)      # histories found by this check on seeded changes: always run first
+    for j in range(-len(fixed), n_plain + n_edit):
+        edited = j >= n_plain or (j < 0 and any(c.get("edit") for c in fixed[j]["calls"]))
+        hist = fixed[j] if j < 0 else gen_history(r, edits=edited)
+        if j < 0:
+            ctx.dist("history/corpus")
         bad = history_case(hist)
         ncalls += len(hist["calls"])
-        ctx.dist("history/%s/len=%d" % (hist["est"], len(hist["calls"])))
+        ctx.dist("history/%s/%s/len=%d" % ("overwritten-in-place" if edited else "same-contents", hist["est"], len(hist["calls"])))
+        prev_real = None
         for c in hist["calls"]:
+            e = c.get("edit")
+            if e:
+                nedits += 1
+                ctx.dist("history-overwrite/%s/%s/%s/new-shift=%s" % (
+                    hist["est"], {0: "first-image", 1: "second-image", 2: "both-new-image"}[e["slot"]], e["how"], e["kind"]))
+            tag = "/after-overwrite" if e else ""
             if hist["est"] == "numpy":
-                ctx.dist("history-call/numpy/%s%s%s%s" % ("F" if c["fft_in"] else "r", "+img" if c["rsi"] else "",
-                                                            "(F)" if c["fft_out"] else "", "/swapped" if c["swap"] else ""))
+                ctx.dist("history-call/numpy/%s%s%s%s%s" % ("F" if c["fft_in"] else "r", "+img" if c["rsi"] else "",
+                                                              "(F)" if c["fft_out"] else "", "/swapped" if c["swap"] else "", tag))
+                real = not c["fft_in"]
             else:
-                ctx.dist("history-call/torch/%s%s" % (c["mode"], "/swapped" if c["swap"] else ""))
+                ctx.dist("history-call/torch/%s%s%s" % (c["mode"], "/swapped" if c["swap"] else "", tag))
+                real = c["mode"] == "real"
+            if edited and real:
+                # consecutive real-space calls with the same object in the role of the reference, whose contents were
+                # overwritten in between (and the other combinations), as a measured share
+                if prev_real is not None:
+                    touched = prev_real["dirty"] | ({0, 1} if e and e["slot"] == 2 else ({e["slot"]} if e else set()))
+                    ref_slot = 1 if c["swap"] else 0
+                    ctx.dist("history-real-pair/%s/%s-reference/%s" % (
+                        hist["est"], "same" if prev_real["swap"] == c["swap"] else "other",
+                        "reference-overwritten" if ref_slot in touched else
+                        ("moving-overwritten" if touched else "untouched")))
+                prev_real = {"swap": c["swap"], "dirty": set()}
+            elif edited and prev_real is not None and e:
+                prev_real["dirty"] |= {0, 1} if e["slot"] == 2 else {e["slot"]}
         ctx.count(("history", json.dumps(hist, sort_keys=True)), nontrivial=True)
-        if j == n // 2:
-            mid = hist
+        if j == n_plain // 2 or j == n_plain + n_edit // 2:
+            mid.append(hist)
         for key, msg, i in bad:
             nbad += 1
             ctx.violation(key, msg, {"kind": "history", "case": hist, "failing_call": i})
-    if mid:
-        ctx.sample({"kind": "history", "case": mid})
-    ctx.log("call histories on the same arrays: %d histories, %d calls, %d failed clauses" % (n, ncalls, nbad))
+    for h in mid:
+        ctx.sample({"kind": "history", "case": h})
+    ctx.log("call histories on the same arrays: %d histories (%d with in-place overwrites of the caller's arrays, %d overwrites), "
+            "%d calls, %d failed clauses" % (n_plain + n_edit + len(fixed), n_edit, nedits, ncalls, nbad))
 
 
 # --------------------------------------------------------------------------- entry points
@@ -1491,7 +1630,16 @@ def run(ctx: Ctx):
         "re-use the same two real arrays / two spectra / two tensors, every fft_input / return_shifted_image / fft_output combination "
         "(the first call always hands the caller's spectra over and asks for the aligned image), either image as the second "
         "argument, every call judged by the oracle on its own; the index arithmetic of the six functions is translated from the "
-        "current source and proved equal to the model (translator_tie).")
+        "current source and proved equal to the model (translator_tie). Round 6: call histories in which the CALLER overwrites the "
+        "contents of an array / spectrum / tensor it passed before, in place, between two calls (60 histories of 4-8 calls per quick "
+        "run in addition to the 36 without overwrites; an overwrite before a call with probability 0.6, at least one per history): "
+        "the first image := the translate of the second by minus a new shift, the second image := the translate of the first by a "
+        "new shift, or both := a new image and its translate; by np.copyto / a[...] = / row by row / in-place arithmetic / out= "
+        "(torch: copy_, a[...] =, rows, mul_.add_, out=); real array and its spectrum are both refreshed; the new shift is zero "
+        "(identical images), integer or dyadic sub-pixel and at least one pixel away from the previous one; roles alternate (40 % "
+        "of the calls take the arrays in the other order); every call is judged on the contents at the time of that call "
+        "(input_distribution history-overwrite/..., history-real-pair/... = consecutive real-space calls by whether the same object "
+        "is the reference and whether it was overwritten in between).")
     ctx.assumptions += [
         "numpy.fft / torch.fft compute the DFT (fft2/ifft2) to float precision; np.roll is an exact circular shift",
         "the upsampled window values are an oracle input of the model (captured from the implementation); what is "
@@ -1520,6 +1668,9 @@ def run(ctx: Ctx):
         "0.3 eps r); the aligned-image clause is judged for float64 inputs only",
         "a call history is inside the quantifier: the property speaks about every call, also the 2nd..n-th one that is handed the "
         "same arrays; histories use a non-zero applied shift of at least one pixel so that a corrupted input cannot pass as correct",
+        "an array the caller overwrites in place between two calls is, for the next call, an input like any other: the property is "
+        "stated per call on the images passed to it, so the expected shift of a call after an overwrite is that of the NEW contents; "
+        "the caller keeps an image and its spectrum consistent (both are refreshed by an overwrite)",
         "hypotheses of the round-3 theorems that are premises on the image content, not checked on inputs: no_self_overlap "
         "(no integer translate reproduces the image) and np_/t_offsets_distinct (no translate by the sub-pixel offset of a "
         "non-centre window sample reproduces it); re additive / positive / definite and E unit-modulus are satisfiable "
